@@ -328,6 +328,10 @@ where
     }
 
     async fn ready(&self, dependencies: &[ID]) -> Result<bool, Self::Error> {
+        // The dependency list is treated as a set: an id which is mentioned more than once only
+        // matches one row in the "ready" table.
+        let dependencies: HashSet<&ID> = dependencies.iter().collect();
+
         self.tx(async |tx| {
             let sql = format!(
                 "
